@@ -138,8 +138,8 @@ def evaluate(prog, base, lib, decisions=None):
                 r = ~x
             elif f == "isna":
                 r = x.isna()
-            elif f == "notna":
-                r = x.notna()
+            elif f == "notnull":
+                r = x.notnull()
             elif f == "fillna":
                 r = x.fillna(nd[3])
             elif f == "astype":
@@ -554,7 +554,7 @@ class Builder:
                 return self.add(["sun", "not", c], self.smeta(c, "b", self.meta[c]["name"]))
             return c
         c = self.col(i, r.choice(self.colsof(i, ("f",))))
-        return self.add(["sun", r.choice(("notna", "isna")), c], self.smeta(c, "b", self.meta[c]["name"]))
+        return self.add(["sun", r.choice(("notnull", "isna")), c], self.smeta(c, "b", self.meta[c]["name"]))
 
     # -- frame steps; each returns the new node index or None when not applicable
     def step(self, kind, i):
